@@ -8,7 +8,11 @@ generic + network, sync and asyncio) over SimDevice with the device dying / stal
 writes of every phase, compared op by op with the model's trace (vm_compute); (3) correspondence `telnet-reopen`:
 both real Telnet transports over scripted sockets across close()/open(), compared with tn_sessions;
 (4) an independent oracle on the implementation (transport flag, channel-log handle, /proc/self/fd, threads,
-children); (5) thorough: real sockets (loopback Telnet device) and a real pty child (system transport)."""
+children); (5) real sockets (loopback Telnet device) and a real pty child (system transport); (6) suite `pty-child`
+(harness/c11_pty.py): the real SystemTransport/PtyProcess under the real sync drivers against /bin/sh stand-ins that
+exit by themselves at a chosen point and against an ssh that cannot be exec'd, observed through /proc (children in any
+state, fds) — the facts about ptyprocess.py that Gen_Lifecycle.v carries (close() reaps in every state, spawn() owns
+what the fork created before anything can raise) are obligations of props/C11.v."""
 import asyncio
 import json
 import os
@@ -18,6 +22,7 @@ import tempfile
 
 from . import common
 from . import c11_lib as L
+from . import c11_pty as P
 from .common import coq_bool, coq_bytes, coq_list
 
 LEVEL = "proof"
@@ -815,6 +820,52 @@ def real_oracle(sc, obs):
     return bad
 
 
+def _pty_suite(rep, rng, thorough, tmpdir, corpus):
+    import gc
+    pdist = {"histories": 0, "sessions": 0, "release_points": 0, "release_points_after_raise": 0,
+             "closes_after_eof_was_read": 0, "exec_failures_after_fork": 0, "platforms": {}, "sessions_by_kind": {}}
+    psc = [c["scenario"] for c in corpus if c.get("suite") == "pty-child"]
+    psc += P.fixed_scenarios(rng, thorough)
+    psc += [P.gen_history(rng) for _ in range(40 if thorough else 2)]
+    seen = set()
+    import time
+    t0 = time.time()
+    gc.collect()
+    gc.freeze()              # the observers call gc.collect() at every op: keep the check's own heap out of it
+    try:
+        for sc in psc:
+            obs = P.run_pty(sc, tmpdir)
+            if not pdist["histories"]:
+                rep.sample({"pty_history": sc, "observed": [{k: o[k] for k in ("res", "children", "fds", "session_held")} for o in obs]})
+            pdist["histories"] += 1
+            pdist["platforms"][sc["kind"]] = pdist["platforms"].get(sc["kind"], 0) + 1
+            for k in P.classify(sc, obs):
+                pdist["sessions"] += 1
+                pdist["sessions_by_kind"][k] = pdist["sessions_by_kind"].get(k, 0) + 1
+            for op, o in zip(sc["ops"], obs):
+                if op["op"] in ("close", "with"):
+                    pdist["release_points"] += 1
+                    pdist["release_points_after_raise"] += o["res"] != "ok"
+                    pdist["closes_after_eof_was_read"] += bool(o["eof_before_close"])
+                c = op.get("child")
+                if c and c["kind"] == "exec_fail" and c["why"] in P.EXEC_FAILS:
+                    pdist["exec_failures_after_fork"] += 1
+            rep.case(("pty", json.dumps(sc, sort_keys=True)), nontrivial=any(o["res"] != "ok" for o in obs))
+            for (i, klass, what) in P.pty_oracle(sc, obs):
+                c = sc["ops"][i].get("child") or {}
+                key = (klass, sc["ops"][i]["op"], c.get("kind"))
+                if key in seen or len(seen) >= 4:
+                    continue
+                seen.add(key)
+                rep.violation("real system (pty) transport, %s driver: %s" % (sc["kind"], what),
+                              {"suite": "pty-child", "scenario": sc, "failing_op": i, "observed": obs,
+                               "rerun": "./check C11 --replay <this file>"}, signature="c11-pty-%s" % klass)
+    finally:
+        gc.unfreeze()
+    pdist["wall_s"] = round(time.time() - t0, 2)
+    rep.coverage["pty_child"] = pdist
+
+
 # ------------------------------------------------------------------------------------------------
 def run(rep):
     from gen import gen_lifecycle, gen_telnet
@@ -997,6 +1048,9 @@ def _explore(rep, rng, thorough, tmpdir, info, gen_ok):
                           signature="c11-real-%s" % sc["transport"])
     rep.coverage["real_resources"] = rdist
 
+    # ---- real pty children that go away by themselves / an ssh that cannot be exec'd ----
+    _pty_suite(rep, rng, thorough, tmpdir, corpus)
+
     # ---- a broken obligation / correspondence without a failing input so far: search harder ----
     if rep.broken and not rep.violations:
         found = 0
@@ -1022,7 +1076,11 @@ def _explore(rep, rng, thorough, tmpdir, info, gen_ok):
                 "(on_open, operate, with-body, on_close); random = mostly-valid histories (len 2-7, hooks default/user/failing, log file/none/unopenable, "
                 "open failures) + a malformed stream (close before open, operate on closed, open on open); distinct = scenario JSON; "
                 "non-trivial = some fault fired or some op raised.  telnet-reopen: 2-3 sessions on one transport object, early sessions leave it "
-                "dirty (10 commands, EOF, command cut short); real-resources: loopback TCP device / pty child, device ok / silent / dying")
+                "dirty (10 commands, EOF, command cut short); real-resources: loopback TCP device / pty child, device ok / silent / dying; "
+                "pty-child: histories of with / open / operate / close / close / re-open over the real system transport, the /bin/sh stand-in exiting "
+                "at a drawn point (start, on_open line 1-3, on the body command, 1-2 lines into on_close; exit 0 / 255 / SIGKILL) or the ssh exec failing "
+                "(ENOEXEC, missing interpreter, E2BIG, not executable; open_cmd / PATH): quick = one platform per kind + 2 random histories, thorough = "
+                "all platforms x phases x shapes + 40 random; distinct = history JSON; non-trivial = some op raised")
 
 
 # ------------------------------------------------------------------------------------------------
@@ -1063,6 +1121,18 @@ def replay(path):
             bad = real_oracle(r["scenario"], obs)
             print("property FAILS on this input: %s" % bad if bad else "property holds on this input")
             return 1 if bad else 0
+        if r.get("suite") == "pty-child":
+            sc = r["scenario"]
+            obs = P.run_pty(sc, tmpdir)
+            for op, o in zip(sc["ops"], obs):
+                print("%-8s %-60s -> %-28s children=%s fds=%s session_held=%s eof_read_before=%s" % (
+                    op["op"], json.dumps(op.get("child")) if op.get("child") else "", o["res"], o["children"],
+                    sorted(o["fds"].values()), o["session_held"], o["eof_before_close"]))
+            bad = P.pty_oracle(sc, obs)
+            for (i, klass, what) in bad:
+                print("op %d: %s" % (i, what))
+            print("property FAILS on this input" if bad else "property holds on this input")
+            return 1 if bad else 0
         print("nothing to replay (no concrete input): %s" % r.get("what"))
         return 1
     finally:
@@ -1079,16 +1149,36 @@ MANIFEST = {
             "nothing and with a device-talking hook raises ScrapliConnectionNotOpened, otherwise returns (close_idempotent); open() after close() "
             "succeeds when the device answers and starts the Telnet transport from its initial protocol state, so C15's negotiation theorem applies "
             "to every re-opened session (reopen_ok, reopen_negotiation_invisible).  The pinned commit's close() without try/finally and Telnet open() "
-            "without reset are refuted by vm_compute witnesses.  Release of OS resources (fds, pty child, sockets, threads) is OBSERVED, not proved: partial.",
+            "without reset are refuted by vm_compute witnesses.  System (pty) transport: PtyProcess.close() as translated from the CURRENT ptyprocess.py "
+            "waits for the ssh child and closes the pty master from EVERY state of an un-closed object — EOF already read or not, child running / defunct — "
+            "raises only if the child survives SIGKILL, does nothing on a closed object (C11_pty_close_reaps, C11_pty_close_idempotent; decided over all 24 "
+            "states x 4 environments); the parent part of PtyProcess.spawn() wraps pid/fd in a PtyProcess before any statement that can raise, so a failed "
+            "exec of the ssh binary leaves them owned and close() releases them (C11_pty_open_failure_released).  The full statement for the pty child is "
+            "refuted (C11_pty_close_full_refuted: EOF read while the child still runs and ignores SIGHUP -> blocking waitpid).  Release of OS resources (fds, pty child, "
+            "sockets, threads) is otherwise OBSERVED, not proved: partial.",
     "note": "Proved of the model: ordering logic of the four driver methods (statement language: sequence / try-finally / try-except, Python "
             "semantics), decided for the generated programs by a verified abstract interpreter (lifecycle_ok, soundness proved). Section-free, axiom-free. "
             "Model assumptions (each confronted by the correspondence runs, not proved): transport.close()/channel.close() do not raise and release "
             "every handle the object owns; a hook/step never opens a transport; a read/write on a closed transport raises ScrapliConnectionNotOpened; "
             "a timeout closes the transport (Settings.NO_TERMINATE_ON_TIMEOUT default); only Exception subclasses (no KeyboardInterrupt/BaseException); "
             "open() on an already open connection (handle replacement) is outside the property's quantifier and not tracked. "
+            "Pty child model: only PtyProcess.close() and the parent part of spawn() are translated (ast, fail-closed; gen also requires __del__ -> self.close() "
+            "and SystemTransport.close -> session.close()); isalive()/terminate()/waitpid, 'closing the master sends SIGHUP' and 'os.close/os.read on the "
+            "exec-error pipe do not raise' are hand-written model assumptions; the premise of C11_pty_close_reaps (if an EOF was read while the child still runs, the SIGHUP of "
+            "the closed master makes it exit: true of ssh) is the region of the partial theorem — outside it close() waits for the child (blocking waitpid once "
+            "flag_eof is set): PBlocks in the model, confirmed by hand on the real code (a child that closed its tty, ignores SIGHUP and sleeps 2 s: close() took "
+            "2.0 s), not generated by the check (a liveness matter, it would stall the run) and not a release failure; "
+            "'owned by a PtyProcess object' becomes 'released' through transport.close() or, after a failed spawn, through __del__ when the exception is "
+            "collected (reference cycle exception -> traceback -> frame: needs gc.collect(); the observers call it) — that step is observed, not proved. "
+            "Suite pty-child is ORACLE-ONLY (no model trace is compared): real SystemTransport/PtyProcess under the real sync drivers (5 platforms' default "
+            "hooks + generic), /bin/sh stand-ins exiting before the first prompt / inside on_open / inside the body or an operation / inside on_close by "
+            "exit 0, exit 255 or SIGKILL, an ssh whose exec fails after the fork (ENOEXEC, missing interpreter, E2BIG; via open_cmd or first on PATH) or that is "
+            "refused before it; with-blocks and open/operate/close/close/re-open; observers: children of this process in ANY state (zombies included), "
+            "/proc/self/fd, threads, after gc.collect() (8 histories quick, ~100 thorough). "
             "Observed only (partial): /proc/self/fd, child pids, threading.enumerate, handle attributes for SimDevice runs (every run) and for real "
             "sockets / a real pty child (6 scenarios quick, 24 thorough); in-channel authentication outcomes are modelled but not exercised (auth_bypass); "
             "paramiko / asyncssh / ssh2 transports are not exercised (no server in the sandbox run).",
     "technique": "Coq: verified abstract interpretation of generated method bodies + case analysis over outcomes; vm_compute correspondence against "
-                 "real drivers with fault injection at every read/write; /proc observers",
+                 "real drivers with fault injection at every read/write; exhaustive evaluation of the translated PtyProcess.close() over its finite "
+                 "state space; /proc observers (children incl. zombies, fds) on real pty children that exit by themselves or cannot be exec'd",
 }
